@@ -125,6 +125,20 @@ def check_iter(tracks, it, tpb):
         total += du * unit
     if not close(length, total):
         return 'length', 'length %r expected %r' % (length, float(total))
+    # what iteration yields are copies the consumer may change at once ("you can safely
+    # modify them"): the tempo map is the file's, whatever the consumer does to its copies
+    try:
+        j = 0
+        for m in mid:
+            if j < len(it) and not close(m.time, it[j][1] * unit):
+                return 'iter-time-with-mutating-consumer', 'message %d (%s) has time %r expected %r when the consumer ' \
+                    'changes every message it is given' % (j, m.type, m.time, float(it[j][1] * unit))
+            j += 1
+            if m.type == 'set_tempo':
+                m.tempo = 777777
+            m.time = 123.0
+    except Exception as e:
+        return 'iter-raises-with-mutating-consumer/' + type(e).__name__, repr(e)
     # the tempo map is whatever the file holds NOW: change every set_tempo in place (the
     # file has been iterated and measured above) and measure again
     ticks = max([sum(dt for dt, k in tr) for tr in tracks] or [0])
@@ -194,6 +208,43 @@ def check_play(tracks, it, play, tpb, origin=START):
     return None
 
 
+def check_long_rest(delta, tpb, tempo, consumer_delay=0):
+    """One rest of weeks or years (huge delta, slow tempo, coarse resolution): the
+    message after it is still yielded at its scheduled time, never before."""
+    import mido
+    import mido.midifiles.midifiles as mm
+    mid = mido.MidiFile(ticks_per_beat=tpb)
+    mid.tracks.append(mido.MidiTrack([mido.MetaMessage('set_tempo', tempo=tempo, time=0),
+                                      mido.Message('note_on', note=1, time=delta),
+                                      mido.Message('note_on', note=2, time=1)]))
+    per_tick = Fraction(tempo, 10 ** 6 * tpb)
+    exp = [delta * per_tick, (delta + 1) * per_tick]
+    ft = FakeTime(Fraction(1), 0)
+    saved = mm.time
+    mm.time = ft
+    try:
+        at = []
+        try:
+            for m in mid.play(now=ft.time):
+                at.append(ft.now)
+                ft.now += consumer_delay
+        except Exception as e:
+            return 'play-raises/' + type(e).__name__, 'rest of %r s: %r' % (float(exp[0]), e)
+    finally:
+        mm.time = saved
+    if len(at) != 2:
+        return 'play-count', 'yielded %d messages' % len(at)
+    for j in range(2):
+        if not close(at[j], max(exp[j], at[j - 1] + consumer_delay if j else 0)):
+            return ('play-early' if at[j] < exp[j] else 'play-late',
+                    'after a rest of %r s (delta %d, tempo %d, %d ticks per beat) message %d was yielded at %r s, scheduled %r s' % (
+                        float(exp[0]), delta, tempo, tpb, j, float(at[j]), float(exp[j])))
+    return None
+
+
+LONG_RESTS = [(9000000, 1, 500000), (1 << 23, 24, 16777215), ((1 << 28) - 1, 1, 16777215), (3, 1, 16777215),
+              (17179869, 2, 500000), (17179870, 2, 500000)]
+
 _WITH_PLAY = False
 _TPBS = [1, 480, 32767]
 
@@ -225,6 +276,9 @@ def worker(lines):
 
 
 def replay(case):
+    if 'long_rest' in case:
+        r = check_long_rest(*case['long_rest'])
+        return r and '%s: %s' % r
     if case.get('kind') == 'units':
         return check_units_one(*case['args'])
     if case.get('kind') == 'type2':
@@ -324,6 +378,12 @@ CHECK_DEADLOCK FALSE
         'tick2second/second2tick inverse is evaluated by the driver (IEEE-754 rounding is not expressible in TLA+); the specification contributes nothing there',
         'the clock passed to play() and time.sleep are virtual; consumer delays are {0, 1000, 60000000} us*tick',
     ]
+    for delta, tpb, tempo in LONG_RESTS:
+        for cd in (0, 5):
+            r = check_long_rest(delta, tpb, tempo, cd)
+            ctx.replayed += 1
+            if r:
+                ctx.violation('playback/' + r[0], {'long_rest': [delta, tpb, tempo, cd]}, r[1])
     # re-entrancy: two threads inside these functions at once, a switch possible before every statement
     from .. import conc
     conc.run_scenarios(ctx, 'C13', 2 if ctx.tier == 'thorough' else 1)
